@@ -564,6 +564,111 @@ def must_compress_rule(chk, src, rule):
            "new_mps.canonicalise(); new_mps.compress()", line=mc.node.lineno)
 
 
+def entry_gauge_rule(chk, src, rule):
+    """abstract run of every tangent-space scheme up to the construction of its environments, for each combination of the input's direction flag and the
+    overlap-forcing switch.  The input's gauge is unknown (the direction flag and the label centre say nothing about orthonormality, cf. C08 entry-gauge).
+    The state the environments are built from must have been orthonormalised by ensure_*_canonical()/canonicalise() - itself or the object it was copied
+    from - with the centre where the sweep starts; the variable-mean-field equations may skip this only when the overlap matrices are used (force_ovlp)."""
+    from ..syminterp import SymInterp, Sym, Blob, OpenSym
+
+    class Stop(Exception):
+        pass
+
+    class St(Sym):
+        def __init__(self, name, to_right, cfg, canon=None):
+            super().__init__(name)
+            self.to_right, self.evolve_config, self.canon = to_right, cfg, canon
+            self.site_num, self.qnidx, self.qntot, self.dtype, self.coeff = 3, Blob("qnidx"), Blob("qntot"), Blob("dtype"), Blob("coeff")
+            self.compress_config, self.model, self.qn = Blob("cc"), Blob("model"), [Blob("qn")] * 4
+
+        def _clone(self, tag):
+            c = St(f"{self._name}.{tag}", self.to_right, self.evolve_config, self.canon)
+            return c
+
+        def copy(self):
+            return self._clone("copy()")
+
+        def to_complex(self, inplace=False):
+            return self if inplace else self._clone("to_complex()")
+
+        def ensure_left_canonical(self, *a, **k):
+            self.canon, self.to_right = "L", False
+            return self
+
+        def ensure_right_canonical(self, *a, **k):
+            self.canon, self.to_right = "R", True
+            return self
+
+        def canonicalise(self, *a, **k):
+            # a full sweep in the direction of the flag, which is reversed at the end
+            self.canon = "L" if self.to_right else "R"
+            self.to_right = not self.to_right
+            return self
+
+        def move_qnidx(self, k):
+            return None
+
+        def _get_big_qn(self, idx):
+            return Blob("qnl"), Blob("qnr"), Blob("qnmat")
+
+        def iter_idx_list(self, full=True, stop_idx=None):
+            return [0, 1, 2] if self.to_right else [2, 1, 0]
+
+        def __len__(self):
+            return 3
+
+        def __getitem__(self, i):
+            return Blob(f"{self._name}[{i}]")
+
+        def __setitem__(self, i, v):
+            pass
+
+        def __iter__(self):
+            return iter([Blob(f"{self._name}[{i}]") for i in range(3)])
+    schemes = [("Mps._evolve_tdvp_ps", "tdvp_ps", "start"), ("Mps._evolve_tdvp_ps2", "tdvp_ps2", "start"), ("Mps._evolve_tdvp_mu_vmf", "tdvp_vmf", "L"),
+               ("Mps._evolve_tdvp_mu_vmf", "tdvp_mu_vmf", "L"), ("Mps._evolve_tdvp_mu_cmf", "tdvp_mu_cmf", "L")]
+    for qual, method, need in schemes:
+        fi = src.func(MPS, qual)
+        for to_right in (True, False):
+            for force_ovlp in (False, True):
+                built = []
+
+                def environ(mps_, mpo_, *a, **k):
+                    built.append((mps_, a, k))
+                    raise Stop()
+                methods = Sym("EvolveMethod", **{m: m for m in ("tdvp_ps", "tdvp_ps2", "tdvp_vmf", "tdvp_mu_vmf", "tdvp_mu_cmf", "prop_and_compress", "prop_and_compress_tdrk4", "prop_and_compress_tdrk")})
+                cfg = Sym("evolve_config", force_ovlp=force_ovlp, method=method, ivp_solver="krylov", ivp_rtol=Blob("rtol"), ivp_atol=Blob("atol"), tdvp_cmf_c_trapz=False,
+                          tdvp_cmf_midpoint=False, reg_epsilon=Blob("eps"), vmf_auto_switch=False, adaptive=False)
+                cfg.__dict__["copy"] = lambda cfg=cfg: cfg
+                me = St("self", to_right, cfg)
+                mk = lambda text: Blob(text)  # noqa: E731
+                npx = OpenSym("np", make=mk, iscomplex=lambda x: False)
+                it = SymInterp(src, None, {"Environ": environ, "logger": Blob("logger"), "np": npx, "xp": OpenSym("xp", make=mk), "EvolveMethod": methods, "Mpo": Sym("Mpo"),
+                                           "isinstance": lambda o, c: False, "callable": lambda o: True, "get_qn_mask": lambda *a: Blob("mask"), "cvec2cmat": lambda *a: Blob("site"),
+                                           "asnumpy": lambda x: x, "asxp": lambda x: x, "solve_ivp": lambda f, span, y0, **k: f(0, y0)})
+                it.max_depth = 12
+                try:
+                    it.call_function(fi, [me, (lambda *a, **k: Sym("mpo_t")), Blob("dt")])
+                    why = "no environments are built"
+                except Stop:
+                    why = None
+                st = built[0][0] if built else None
+                if why is None and not isinstance(st, St):
+                    why = f"environments built from {st!r}"
+                if why is None:
+                    if need == "start":
+                        want = "R" if st.to_right else "L"
+                        if st.canon != want:
+                            why = (f"the sweep starts at the {'first' if st.to_right else 'last'} site (to_right={st.to_right}) but the state was " +
+                                   ("never orthonormalised" if st.canon is None else f"brought to {st.canon}-canonical form"))
+                    elif st.canon != "L" and not force_ovlp:
+                        why = "left environments of a state that was " + ("never orthonormalised" if st.canon is None else f"brought to {st.canon}-canonical form") + " and no overlap matrices"
+                chk.ob(rule, f"{qual}[method={method}, input to_right={to_right}, force_ovlp={force_ovlp}]", why is None, fi.where, why or "orthonormalised before the environments are built",
+                       "orthonormalised before the environments are built", line=fi.node.lineno,
+                       detail=f"{qual}: {why} - the tangent-space equations treat the overlap environments as identities; on a state that is not actually canonical (a sum, the result of "
+                              "an operator application, any re-gauged state) the propagated state is silently wrong although norm and bond dimensions look fine")
+
+
 def run(chk):
     src = chk.src
     chk.explanation = (
@@ -594,6 +699,8 @@ def run(chk):
     chk.rule("overlap-kernel", "transferMat (overlap matrices of the tangent-space equations) is the canonical <bra|ket> transfer step in both directions and ranks", 4)
     from .C07 import transfer_cases
     add_cases(chk, "overlap-kernel", transfer_cases(src), "overlap matrix kernel")
+    chk.rule("entry-gauge", "tangent-space schemes orthonormalise the state (centre at the sweep start) before building environments, for every direction flag; VMF may skip only with overlap matrices", 20)
+    entry_gauge_rule(chk, src, "entry-gauge")
     chk.rule("step-doubling", "abstract run of the adaptive TDVP wrapper with scripted error estimates", 3)
     step_doubling_rule(chk, src, "step-doubling")
     chk.rule("relative-error-homogeneous", "adaptive error estimates divide norms of the same kind (both with or both without the scalar prefactor)", 3)
